@@ -15,7 +15,11 @@ def r1_factory_plumbing(chk: Check) -> None:
     chk.rule("C20.R1", "PLUMBED: the hypothesis-graphql factory is selected by the operation's root type and called with fields=[this field], the configured allow_x00 / allow_null / codec and the registered custom scalars; print_ast is applied after the hooks; the strategy is not served from a cache that ignores any of these", floor=8)
     P = chk.project
     fn = P.func(f"{GQL}:graphql_cases")
-    fac = [v for _, v in assignments_to(fn.node, "strategy_factory") if v is not None]
+    facs = [(n, b) for n, b in pfind("$f = $X", fn.node) if isinstance(b["X"], ast.Subscript) and isinstance(b["X"].value, ast.Dict) and "gql_st." in unparse(b["X"].value, 400)]
+    fac = [b["X"] for _n, b in facs]
+    fvar = name_of(facs[0][1], "f") if facs else None
+    dv = defined_by(fn, "$v = cast(GraphQLOperationDefinition, operation.definition)")
+    D = dv[0] if dv else "operation.definition"
     if fac and isinstance(fac[0], ast.Subscript) and isinstance(fac[0].value, ast.Dict):
         d = fac[0].value
         pairs = {dotted(k): dotted(v) for k, v in zip(d.keys, d.values) if k is not None}
@@ -24,16 +28,16 @@ def r1_factory_plumbing(chk: Check) -> None:
                 chk.violation("C20.R1", fn, f"{root} -> {want}", f"operations of kind {root.split('.')[1].lower()} have no strategy factory (KeyError while generating)", fn.loc(d))
             else:
                 chk.decide(pairs[root] == want, "C20.R1", fn, f"{root} -> {want}", f"{root} operations are generated with `{pairs[root]}`: the document does not select a {root.split('.')[1].lower()} field", fn.loc(d))
-        chk.decide(unparse(fac[0].slice) == "definition.root_type", "C20.R1", fn, "factory selected by definition.root_type", f"selected by `{unparse(fac[0].slice)}`", fn.loc(fac[0]))
+        chk.decide(unparse(fac[0].slice) in (f"{D}.root_type", "operation.definition.root_type"), "C20.R1", fn, "factory selected by definition.root_type", f"selected by `{unparse(fac[0].slice)}`", fn.loc(fac[0]))
     else:
         chk.undecided("C20.R1", fn, "factory dict over RootType", "shape not recognised", fn.loc())
-    call = [c for c in body_calls(fn) if isinstance(c.func, ast.Name) and c.func.id == "strategy_factory"]
+    call = [c for c in body_calls(fn) if isinstance(c.func, ast.Name) and c.func.id == fvar]
     if not call:
         chk.violation("C20.R1", fn, "strategy_factory(...)", "the GraphQL strategy factory is not called", fn.loc())
         return
     c = call[0]
     want = {
-        "fields": "[definition.field_name]",
+        "fields": f"[{D}.field_name]",
         "allow_x00": "generation_config.allow_x00",
         "allow_null": "generation_config.graphql_allow_null",
         "codec": "generation_config.codec",
@@ -41,15 +45,15 @@ def r1_factory_plumbing(chk: Check) -> None:
     for k, v in want.items():
         val = kwarg(c, k)
         if val is None:
-            chk.violation("C20.R1", fn, f"strategy_factory({k}={v})", f"`{k}` is not passed: " + {"fields": "documents select arbitrary fields of the root type instead of the operation's field", "allow_null": "nulls are generated although they are disabled", "allow_x00": "NUL characters are generated although they are disabled", "codec": "the configured codec is ignored"}[k], fn.loc(c))
+            chk.violation("C20.R1", fn, f"strategy_factory({k}={v.replace(D, 'definition')})", f"`{k}` is not passed: " + {"fields": "documents select arbitrary fields of the root type instead of the operation's field", "allow_null": "nulls are generated although they are disabled", "allow_x00": "NUL characters are generated although they are disabled", "codec": "the configured codec is ignored"}[k], fn.loc(c))
         elif unparse(val) == v:
-            chk.ok("C20.R1", fn, f"strategy_factory({k}={v})", "", fn.loc(c))
+            chk.ok("C20.R1", fn, f"strategy_factory({k}={v.replace(D, 'definition')})", "", fn.loc(c))
         elif isinstance(val, ast.Constant) or unparse(val) in ("None", "True", "False", "[]"):
-            chk.violation("C20.R1", fn, f"strategy_factory({k}={v})", f"`{k}` is hard-wired to {unparse(val)}", fn.loc(c))
+            chk.violation("C20.R1", fn, f"strategy_factory({k}={v.replace(D, 'definition')})", f"`{k}` is hard-wired to {unparse(val)}", fn.loc(c))
         elif k != "fields" and unparse(val).startswith("generation_config."):
-            chk.violation("C20.R1", fn, f"strategy_factory({k}={v})", f"crossed option: `{k}` receives `{unparse(val)}`", fn.loc(c))
+            chk.violation("C20.R1", fn, f"strategy_factory({k}={v.replace(D, 'definition')})", f"crossed option: `{k}` receives `{unparse(val)}`", fn.loc(c))
         else:
-            chk.undecided("C20.R1", fn, f"strategy_factory({k}={v})", f"`{k}` receives `{unparse(val)}`", fn.loc(c))
+            chk.undecided("C20.R1", fn, f"strategy_factory({k}={v.replace(D, 'definition')})", f"`{k}` receives `{unparse(val)}`", fn.loc(c))
     cs = kwarg(c, "custom_scalars")
     src = local_value(fn, cs.id) if isinstance(cs, ast.Name) else ([cs] if cs is not None else [])
     t = unparse(src[0], 300) if src else ""
@@ -62,12 +66,14 @@ def r1_factory_plumbing(chk: Check) -> None:
     chk.decide(True if ok else None, "C20.R1", fn, "body hooks are applied to the AST, then print_ast", "order of hooks / printing not recognised", fn.loc())
     # the drawn body goes into the Case unchanged
     cc = [x for x in body_calls(fn) if dotted(x.func) == "operation.Case"]
-    chk.decide(bool(cc) and unparse(kwarg(cc[0], "body")) == "body" and any(unparse(v) == "draw(strategy)" for v in local_value(fn, "body")), "C20.R1", fn, "Case(body=<the drawn document>)", "the case does not carry the generated document", fn.loc())
+    strat_vars = {t.id for st_ in [stmt_of(c)] if isinstance(st_, ast.Assign) for t in st_.targets if isinstance(t, ast.Name)}
+    bv = kwarg(cc[0], "body") if cc else None
+    chk.decide(bool(cc) and isinstance(bv, ast.Name) and any((m_ := pmatch("draw($s)", v)) is not None and name_of(m_, "s") in strat_vars for v in local_value(fn, bv.id)), "C20.R1", fn, "Case(body=<the drawn document>)", "the case does not carry the generated document", fn.loc())
     # no incomplete memoisation of the strategy
     shared.memo_key_rule(chk, "C20.R1b", [f for f in P.module(GQL).functions.values()], None,
                          "MEMO-KEY: if GraphQL strategies / operations are cached, the key covers every setting and definition field they are built from")
     # a strategy that may come from a lookup instead of the factory must be keyed completely: def-use of `strategy`
-    sv = [v for _, v in assignments_to(fn.node, "strategy") if v is not None]
+    sv = [v for sv_ in strat_vars for _, v in assignments_to(fn.node, sv_) if v is not None]
     lookups = [v for v in sv if isinstance(v, ast.Call) and (last_attr(v) or "").startswith("get") and "cache" in unparse(v.func, 100).lower()]
     for lk in lookups:
         keys = shared._chains(fn, lk, set(params_of(fn.node)))
@@ -101,7 +107,7 @@ def r2_enumeration(chk: Check) -> None:
             sel = [n for n in walk_body(fn.node) if isinstance(n, ast.AugAssign) and (dotted(n.target) or "").endswith("operations.selected")]
             same_loop = bool(tot and sel) and next((a for a in ancestors(tot[0]) if isinstance(a, ast.For)), None) is next((a for a in ancestors(sel[0]) if isinstance(a, ast.For)), 1)
             chk.decide(True if same_loop else None, "C20.R2", fn, "total and selected are counted per field in the same loop", "counts are taken over different sets", fn.loc())
-            chk.expect("dummy_operation.label = f'{query_type_name}.{field[\"name\"]}'" in t.replace("'name'", '"name"') or "dummy_operation.label" in t, "C20.R2", fn, "filter context carries the field's label", "label not set", fn.loc())
+            chk.expect(phas("$o.label = $_", fn.node), "C20.R2", fn, "filter context carries the field's label", "label not set", fn.loc())
     bo = P.func(f"{GQL}:GraphQLSchema._build_operation")
     t = unparse(bo.node, 100000)
     chk.expect("label=f'{operation_type.name}.{field_name}'" in t and "field_name=field_name" in t and "root_type=root_type" in t, "C20.R2", bo, "operation label / field name / root type taken from the enumerated field", "shape not recognised", bo.loc())
